@@ -1,7 +1,7 @@
 /-
   C15 — the delay model only lengthens, deterministically, and is reported.
   (Selection logic of `generate_delay`; numpy's draws are parameters.)
-  The "never fails" clause is FALSE of the code (known finding K4): the full
+  The "never fails" clause is FALSE of the code for 'poisson'/'uniform' (known finding K4): the full
   statement is kept below next to its proved negation and the proved partial.
 -/
 import TopsimProofs.DelayLemmas
@@ -33,13 +33,19 @@ def C15_never_fails_statement : Prop :=
   ∀ (r : Nat) (dz : Bool) (dist : Dist) (p u : Rat) (s : List Rat),
     0 ≤ u → u < 1 → s.length = 100 → ∃ v, generateDelay r dz dist p u s = .ok v
 
-/-- …its negation, with concrete witnesses: runtime 0 under 'normal' (all
-samples equal the mean: nothing above it), and any firing 'poisson'/'uniform'. -/
+/-- …its negation, with concrete witnesses: any firing 'poisson'/'uniform'. -/
 theorem C15_never_fails_neg : ¬ C15_never_fails_statement :=
   delay_never_fails_neg
 
-theorem C15_neg_zero_runtime :
-    generateDelay 0 false .normal 1 0 (List.replicate 100 0) = .error .index := by
+/-- runtime 0 under 'normal' (sigma = 0: every sample equals the mean) — and any
+run in which no sample lies above the mean — returns the runtime unchanged
+(F11 repair; before it this raised IndexError) -/
+theorem C15_no_sample_above (r : Nat) (dz : Bool) (p u : Rat) (s : List Rat)
+    (h : ∀ x ∈ s, x ≤ (r : Rat)) : generateDelay r dz .normal p u s = .ok r :=
+  delay_no_sample_above r dz p u s h
+
+theorem C15_runtime_zero_example :
+    generateDelay 0 false .normal 1 0 (List.replicate 100 0) = .ok 0 := by
   decide
 
 theorem C15_neg_poisson (r : Nat) (p u : Rat) (s : List Rat) (h : u < p) :
@@ -50,11 +56,10 @@ theorem C15_neg_uniform (r : Nat) (p u : Rat) (s : List Rat) (h : u < p) :
     generateDelay r false .uniform p u s = .error .type := by
   simp [generateDelay, h]
 
-/-- what does hold: 'normal' succeeds whenever some sample lies above the mean
-(which numpy's sampler gives for every positive runtime and degree) -/
-theorem C15_never_fails_partial (r : Nat) (dz : Bool) (p u : Rat) (s : List Rat)
-    (h : ∃ x ∈ s, x > (r : Rat)) : ∃ v, generateDelay r dz .normal p u s = .ok v :=
-  delay_normal_ok r dz p u s h
+/-- what does hold: 'normal' never fails (after the F11 repair) -/
+theorem C15_never_fails_partial (r : Nat) (dz : Bool) (p u : Rat) (s : List Rat) :
+    ∃ v, generateDelay r dz .normal p u s = .ok v :=
+  delay_normal_ok r dz p u s
 
 -- non-vacuity
 -- CORRECTED (numbers only): the samples above the mean 10 are [12, 27/2, 11] (order kept, as
